@@ -326,13 +326,13 @@ theorem send_spec {s : State} (h : KeysAsc s.bal) (src dst : Addr) (amt : Int) (
         (if dst = q then (if src = q then balOf s q - amt else balOf s q) + amt
          else if src = q then balOf s q - amt else balOf s q)) ∧
       KeysAsc s1.bal ∧
-      s1 = { s with bal := s1.bal } := by
+      s1 = { s with bal := s1.bal, accts := s1.accts } := by
   unfold send
   rw [if_neg (by omega)]
   refine ⟨_, rfl, ?_, ?_, ?_⟩
   · intro q
     have h1 := keysAsc_setBal h src (balOf s src - amt)
-    rw [balOf_setBal h1, balOf_setBal h, balOf_setBal h]
+    rw [balOf_touch, balOf_setBal h1, balOf_setBal h, balOf_setBal h]
     by_cases hd : dst = q
     · subst hd; simp
       split
@@ -343,7 +343,7 @@ theorem send_spec {s : State} (h : KeysAsc s.bal) (src dst : Addr) (amt : Int) (
       · rename_i e; subst e; rfl
       · rfl
   · exact keysAsc_setBal (keysAsc_setBal h _ _) _ _
-  · simp [setBal]
+  · simp [setBal, touch]
 
 theorem send_none_iff (s : State) (src dst : Addr) (amt : Int) :
     send s src dst amt = none ↔ balOf s src < amt := by
@@ -352,11 +352,11 @@ theorem send_none_iff (s : State) (src dst : Addr) (amt : Int) :
 
 /-- `send` only touches the balances -/
 theorem send_frame {s s1 : State} {src dst : Addr} {amt : Int} (h : send s src dst amt = some s1) :
-    s1 = { s with bal := s1.bal } := by
+    s1 = { s with bal := s1.bal, accts := s1.accts } := by
   unfold send at h
   split at h
   · simp at h
-  · simp at h; subst h; simp [setBal]
+  · simp at h; subst h; simp [setBal, touch]
 
 theorem burnFrom_spec {s : State} (h : KeysAsc s.bal) (acc : Addr) (amt : Int) (hb : amt ≤ balOf s acc) :
     ∃ s1, burnFrom s acc amt = some s1 ∧
@@ -411,7 +411,7 @@ theorem anteOK_true {s : State} {t : Tx} {sim : Bool} (h : anteOK s t sim = true
   · simp at h4
   · rename_i verif hv
     simp only [Bool.and_eq_true, beq_iff_eq, decide_eq_true_eq, Bool.or_eq_true] at h4
-    obtain ⟨⟨⟨⟨h5, h6⟩, _⟩, h7⟩, h8⟩ := h4
+    obtain ⟨⟨⟨⟨⟨h5, h6⟩, _⟩, h7⟩, _⟩, h8⟩ := h4
     have hkey : ∃ k ∈ s.keys, k.2 = verif := by
       split at hv
       · exact ⟨_, lookup_mem hv, rfl⟩
@@ -438,6 +438,17 @@ theorem anteOK_true {s : State} {t : Tx} {sim : Bool} (h : anteOK s t sim = true
       simp [keyAddr, hv]
 
 
+/-- an accepted transaction is signed by an account that exists -/
+theorem anteOK_acct {s : State} {t : Tx} {sim : Bool} (h : anteOK s t sim = true) :
+    acctExists s (t.msg.signer s) = true := by
+  unfold anteOK at h
+  simp only [Bool.and_eq_true, decide_eq_true_eq, ge_iff_le, bne_iff_ne, ne_eq] at h
+  obtain ⟨⟨⟨_, h4⟩, _⟩, _⟩ := h
+  split at h4
+  · simp at h4
+  · simp only [Bool.and_eq_true] at h4
+    exact h4.1.2
+
 /-- the part of the ante decision about the second denomination -/
 theorem anteOK_fee2 {s : State} {t : Tx} {sim : Bool} (h : anteOK s t sim = true) :
     0 ≤ t.fee2 ∧ t.fee2 ≤ balOf2 s (t.msg.signer s) := by
@@ -460,7 +471,7 @@ theorem fee_send {s : State} {t : Tx} {sim : Bool} (h : WF s) (ha : anteOK s t s
       balOf s1 s.feeAcc = balOf s s.feeAcc + t.feeEff ∧
       balOf s1 (t.msg.signer s) = balOf s (t.msg.signer s) - t.feeEff ∧
       (∀ a, a ≠ s.feeAcc → a ≠ t.msg.signer s → balOf s1 a = balOf s a) ∧
-      KeysAsc s1.bal ∧ s1 = { s with bal := s1.bal } := by
+      KeysAsc s1.bal ∧ s1 = { s with bal := s1.bal, accts := s1.accts } := by
   obtain ⟨_, _, _, hkey, _, _, hbal, _⟩ := anteOK_true ha
   have hne := (key_not_mod h hkey).2.1
   refine ⟨hne, ?_⟩
@@ -482,7 +493,7 @@ theorem send_some {s s1 : State} (h : KeysAsc s.bal) {src dst : Addr} {amt : Int
     (∀ q, balOf s1 q =
         (if dst = q then (if src = q then balOf s q - amt else balOf s q) + amt
          else if src = q then balOf s q - amt else balOf s q)) ∧
-      KeysAsc s1.bal ∧ s1 = { s with bal := s1.bal } := by
+      KeysAsc s1.bal ∧ s1 = { s with bal := s1.bal, accts := s1.accts } := by
   have hb : amt ≤ balOf s src := by
     by_cases hlt : balOf s src < amt
     · rw [(send_none_iff s src dst amt).2 hlt] at hs; simp at hs
